@@ -670,3 +670,178 @@ class Channel:
             name=name, cfg=self.cc.cfg(), params=[params_strings(p) for p in self.params_list],
             events=self.events, desc=self.cc.describe(),
         )
+
+
+class CChannel(Channel):
+    """Same histories through the PUBLIC C API (digital_rf_write_hdf5 / digital_rf_write_blocks_hdf5) via the
+    sanitizer-built replay driver.  The C API has no written/gap counters: those are logged as -1 (= not observed)."""
+
+    def __init__(self, digital_rf, root, cc, params_list, cdriver):
+        Channel.__init__(self, digital_rf, root, cc, params_list)
+        self.cdriver = cdriver
+        self.proc = None
+        self.idx = 0
+        self.lastfile = ""
+        self.crashed = None
+
+    def _cmd(self, line):
+        import subprocess
+
+        if self.proc is None or self.proc.poll() is not None:
+            self.crashed = self.crashed or "driver not running"
+            return None
+        try:
+            self.proc.stdin.write(line + "\n")
+            self.proc.stdin.flush()
+            ans = self.proc.stdout.readline()
+        except (BrokenPipeError, OSError):
+            ans = ""
+        if not ans.startswith("rc="):
+            self.proc.wait()
+            err = self.proc.stderr.read()[-1500:] if self.proc.stderr else ""
+            self.crashed = "driver died (rc=%s): %s" % (self.proc.returncode, err)
+            return None
+        m = re.match(r"rc=(-?\d+) idx=(\d+) last=(.*)$", ans.strip("\n"))
+        rc, self.idx, self.lastfile = int(m.group(1)), int(m.group(2)), m.group(3)
+        return rc
+
+    def getters(self):
+        lastw = 0
+        if self.lastfile:
+            m = RE_FINAL.match(os.path.basename(self.lastfile))
+            lastw = self.cc.win_of_ms(int(m.group(1)) * 1000 + int(m.group(2))) if m else -1
+        return dict(next=int(self.idx), written=-1, gaps=-1, lastw=lastw)
+
+    def open(self, d, start_rel, pid):
+        import subprocess
+        import uuid as _uuid
+
+        cc = self.cc
+        p = self.params_list[pid - 1]
+        before = self.tree_hash(d)
+        ev = dict(ev="open", d=d, start=start_rel, pid=pid, capi=True)
+        env = dict(os.environ, ASAN_OPTIONS="detect_leaks=0:abort_on_error=0:exitcode=86", UBSAN_OPTIONS="halt_on_error=1:exitcode=87")
+        self.proc = subprocess.Popen([self.cdriver], stdin=subprocess.PIPE, stdout=subprocess.PIPE, stderr=subprocess.PIPE, text=True, env=env)
+        u = _uuid.uuid4().hex
+        rc = self._cmd("init %s %s %d %s %d %d %d %d %d %s %d %d %d %d %d %d" % (
+            self.chdir(d), p["kind"], p["size"], p["order"], p["sc"], p["fc"], start_rel + cc.B, p["n"], p["d"], u,
+            cc.compression, int(cc.checksum), p["is_complex"], p["nsub"], p["continuous"], cc.vals.seed & M64))
+        if rc != 0:
+            ev.update(resp="err" if rc is not None else "crash", same=(self.tree_hash(d) == before))
+            self._stop()
+            self.events.append(ev)
+            return False
+        ev.update(resp="ok", same=True)
+        self.w = self
+        self.sess = dict(d=d, start=start_rel, pid=pid, uuid=u)
+        self.ip.update((start_rel - 1, start_rel))
+        self.events.append(ev)
+        return True
+
+    def _stop(self):
+        if self.proc is not None:
+            try:
+                self.proc.stdin.close()
+            except Exception:
+                pass
+            try:
+                self.proc.wait(timeout=20)
+            except Exception:
+                self.proc.kill()
+            err = ""
+            try:
+                err = self.proc.stderr.read()
+            except Exception:
+                pass
+            if self.proc.returncode in (86, 87) or "ERROR: AddressSanitizer" in err or "runtime error:" in err:
+                self.crashed = self.crashed or ("sanitizer report: " + err[-1200:])
+            self.proc = None
+
+    def write(self, runs, api=None):
+        st = self.sess["start"]
+        ev = dict(ev="write", runs=[list(r) for r in runs], uuid=self.sess["uuid"], capi=True)
+        if len(runs) == 1 and api != "blocks":
+            rc = self._cmd("w %d %d" % (runs[0][0] - st, runs[0][1]))
+        elif self.cc.mode != "gapped" and len(runs) > 1:
+            # the C API accepts one contiguous block per call in continuous mode (the Python extension splits likewise)
+            rc = 0
+            for a, n in runs:
+                rc = self._cmd("w %d %d" % (a - st, n))
+                if rc != 0:
+                    break
+        else:
+            off, parts = 0, []
+            for a, n in runs:
+                parts += [str(a - st), str(off)]
+                off += n
+            rc = self._cmd("b %d %d %s" % (off, len(runs), " ".join(parts)))
+        ev.update(resp=("crash" if rc is None else "ok" if rc == 0 else "err"), ret=int(self.idx) if rc == 0 else -1, rc=rc)
+        ev.update(self.getters())
+        ev.update(self.dir_obs(self.sess["d"]))
+        for a, n in runs:
+            self.ip.update((a - 1, a, a + n - 1, a + n))
+        self.events.append(ev)
+        return ev
+
+    def bad(self, kind):
+        st = self.sess["start"]
+        nxt = int(self.idx)
+        d = self.sess["d"]
+        before = self.tree_hash(d)
+        cc = self.cc
+        # a valid leading block that crosses into the next file, so that the malformed part is met late
+        a0 = st + nxt
+        nb = [b for b in cc.bound if b > a0]
+        lead = (nb[0] - a0 + 1) if nb and nb[0] - a0 + 1 < 50000 and len(nb) > 1 else 2
+        late = kind != "past" and hash((kind, nxt)) % 2 == 0
+        L = lead if late else 2
+        g0 = nxt
+        ev = dict(ev="bad", kind=kind, capi=True, late=late)
+        if kind == "past":
+            if nxt == 0:
+                return None
+            rc = self._cmd("w %d 2" % (nxt - 1))
+        elif kind == "first-offset-nonzero":
+            rc = self._cmd("b %d 2 %d 1 %d %d" % (L + 4, g0, g0 + L + 5, L + 2))
+        elif kind == "offsets-not-increasing":
+            rc = self._cmd("b %d 3 %d 0 %d %d %d %d" % (L + 4, g0, g0 + L + 3, L, g0 + L + 7, L))
+        elif kind == "indices-not-increasing":
+            rc = self._cmd("b %d 3 %d 0 %d %d %d %d" % (L + 4, g0, g0 + L + 3, L, g0 + L + 3, L + 2))
+        elif kind == "blocks-overlap":
+            rc = self._cmd("b %d 3 %d 0 %d %d %d %d" % (L + 6, g0, g0 + L + 3, L, g0 + L + 4, L + 3))
+        elif kind == "offset-past-end":
+            rc = self._cmd("b %d 2 %d 0 %d %d" % (L + 2, g0, g0 + L + 9, L + 2))
+        elif kind == "length-mismatch":
+            # the C API takes one length for both arrays; the nearest malformed call is a zero index length
+            rc = self._cmd("b %d 0" % (L + 2))
+        else:
+            raise ValueError(kind)
+        ev["resp"] = "crash" if rc is None else ("ok" if rc == 0 else "err")
+        ev["rc"] = rc
+        ev.update(self.getters())
+        ev["same"] = self.tree_hash(d) == before
+        self.events.append(ev)
+        return ev
+
+    def empty(self, gap):
+        d = self.sess["d"]
+        before = self.tree_hash(d)
+        rc = self._cmd("w %d 0" % (int(self.idx) + gap))
+        ev = dict(ev="empty", gap=gap, capi=True, resp=("crash" if rc is None else "ok" if rc == 0 else "err"))
+        ev.update(self.getters())
+        ev["same"] = self.tree_hash(d) == before
+        self.events.append(ev)
+
+    def close(self):
+        d = self.sess["d"]
+        ev = dict(ev="close", uuid=self.sess["uuid"], capi=True)
+        g = self.getters()
+        self._cmd("close")
+        self._stop()
+        ev.update(g)
+        ev.update(self.dir_obs(d))
+        ev["crash"] = bool(self.crashed)
+        if self.crashed:
+            ev["crash_text"] = self.crashed[-600:]
+        self.events.append(ev)
+        self.w = None
